@@ -1,6 +1,7 @@
 """C02 - Every engine conserves every conservation law of the network."""
 import random
 from fractions import Fraction as Fr
+from fractions import Fraction as Fr
 
 from .. import rd_euler, rd_eval, rd_law, rd_model
 from ..vlib import util
@@ -50,6 +51,41 @@ def run(tier, selftest=False, only=None):
         c07.trace_check(rep, jobs, models, "pure-diffusion")
         jobs, models = c07.jobs_for(rng, n // 4, ["gillespie", "tauleap"], it)
         c07.trace_check(rep, jobs, models, "with-chemostats")
+        # chemostated species that take part in reactions next to species bound by a law (any position in the species list):
+        # the law of the free species must hold while the flagged one is held
+        jobs, models = c07.jobs_for(rng, n // 4, ["tauleap", "gillespie", "tauleap"], it, chem_p=0.5, max_species=4, max_reactions=3)
+        c07.trace_check(rep, jobs, models, "chemostated-reactants")
+        # networks BUILT to have a law among free species that react with a held one, in every order of the species list:
+        #   p + c <-> q   (c chemostated; p + q conserved)   and   q -> p + r   (r free; p + q still conserved)
+        jobs, models = [], {}
+        for i in range(n // 4):
+            m = rd_model.random_model(rng, max_species=4, max_reactions=0, chem_p=0.0, graph=(i % 2 == 0))
+            labels = [s["label"] for s in m.species]
+            while len(labels) < 3:
+                lab = [l for l in rd_model.LABELS if l not in labels][0]
+                m.species.append({"label": lab, "D": Fr(1)})
+                m.state.append([rng.choice([0, 2, 5]) for _ in range(m.ncells())])
+                labels.append(lab)
+            order = labels[:]
+            rng.shuffle(order)
+            pl, cl, ql = order[0], order[1], order[2]
+            m.reactions = [{"sub": {pl: 1, cl: 1}, "prod": {ql: 1}, "kf": Fr(1), "kr": Fr(1, 2)}]
+            if len(order) > 3:
+                m.reactions.append({"sub": {ql: 1}, "prod": {pl: 1, order[3]: 1}, "kf": Fr(1, 2)})
+            for s in m.species:
+                s.pop("chstt", None)
+                if s["label"] == cl:
+                    s["chstt"] = True
+            m.chem = None
+            for row, s in zip(m.state, m.species):
+                if s["label"] in (pl, cl):
+                    for k in range(len(row)):
+                        row[k] = max(row[k], 4)
+            kind = ("tauleap", "gillespie")[i % 2 if i % 4 else 0]
+            jid = "%s%d" % (kind[0], i)
+            jobs.append((jid, m, kind, rng.randint(0, 2 ** 31 - 1), it, 0.05))
+            models[jid] = m
+        c07.trace_check(rep, jobs, models, "law-next-to-a-held-reactant")
     if sel("euler"):
         rng = random.Random(seed * 4409 + 23)
         n, steps = (120, 4000) if tier == "quick" else (1200, 40000)
